@@ -84,6 +84,7 @@ fn main() {
         }
         "C17" => props::c17::run(run),
         "C18" => props::c18::run(run),
+        "C19" => props::c19::run(run),
         "C20" => props::c20::run(run),
         _ => {
             eprintln!("no engine for property {id}");
